@@ -451,6 +451,9 @@ func init() {
 			if spec.Deadline {
 				ck += "(deadline)"
 			}
+			if spec.Cancel.Kind == "after-release" && !(exhaustiveOrders && n <= 3) && idx%1500 == 1245%1500 {
+				spec.HoldAfterCancelMS = 2500 // in-flight tasks that outlive the cancellation by seconds (a handful of cases)
+			}
 			res := newRes(map[string]interface{}{"spec": spec})
 			res.Cells = []string{fmt.Sprintf("cancel=%s|%s|n=%d", ck, mname, n)}
 			if exhaustiveOrders && n <= 3 {
@@ -569,6 +572,7 @@ func init() {
 					spec.QuietMask = r.intn(1 << uint(n)) // tasks that write nothing
 				}
 				spec.Nested = spec.QuietMask&1 == 0 && r.chance(1, 3)
+				spec.NestedPlain = spec.Nested && r.chance(1, 2)
 				spec.ValWriter = r.chance(1, 4)
 				spec.Policy = []string{"all", "eager", "rand"}[r.intn(3)]
 				spec.HoldUS = r.intn(50)
@@ -640,6 +644,10 @@ func init() {
 				}
 				if r.chance(1, 6) {
 					hist = append(hist, Call{Op: []string{"addnil", "depnil", "addnofn"}[r.intn(3)], A: r.intn(3)})
+				}
+				if r.chance(1, 8) {
+					a := r.intn(3)
+					hist = append(hist, Call{Op: "dep", A: a, B: []int{(a + 1) % 3, (a + 1) % 3, (a + 2) % 3}}) // the same dependency twice in one call
 				}
 				cell = "history|random-long"
 			} else {
@@ -740,6 +748,18 @@ func init() {
 				spec = &Spec{N: n, Hist: hist, Plan: plan, PSeed: r.u64(), Policy: "eager", MaxPar: []int{0, 0, 4, 16}[r.intn(4)]}
 				cell = "wide-skip|uncontrolled"
 			}
+			if idx >= histCases(maxLen) && r.chance(1, 500) {
+				// more ready tasks than any plausible built-in default limit, all held open: every one of them must get started
+				n = 300
+				plan = make([][]int, n)
+				for t := range plan {
+					plan[t] = scripts[0]
+				}
+				hist = canonHist(r, n, nil, make([]int, n))
+				m = BuildModel(n, hist)
+				spec = &Spec{N: n, Hist: hist, Plan: plan, PSeed: r.u64(), Policy: "all"}
+				cell = "very-wide|controlled"
+			}
 			spec.Percent = r.chance(1, 8)
 			if len(hist) > 1 && r.chance(1, 3) {
 				spec.SortAt = 1 + r.intn(len(hist)-1) // DepthFirstSort called while the graph is still being built
@@ -770,6 +790,9 @@ func init() {
 					spec.Policy = "rand"
 					if strings.HasPrefix(cell, "wide-skip") {
 						spec.Policy, spec.Buffer, spec.WriterFails = "eager", false, false
+					}
+					if strings.HasPrefix(cell, "very-wide") {
+						spec.Policy, spec.Buffer, spec.WriterFails = "all", false, false
 					}
 					if v := runOne(spec, res, allProps); v != nil {
 						return v
